@@ -206,6 +206,24 @@ def criterion(ctx, fb):
                 srcs = payload.args if k == 'call' else [o for o in (payload[1:] if payload[0] != 'bin' else payload[2:4]) if isinstance(o, list)]
                 ok_acc |= _uses_local(f, srcs, acc_local, 5)
     ctx.inst(R, 'extent-is-accumulated', ok_acc, 'the extent compared against is accumulated across dimensions (its in-loop update reads its previous value): %s' % (f.names.get(str(acc_local), acc_local)), f.loc())
+    # every `false` (no overlap) exit is one of the three justified ones: an empty shape (a zero dimension), the
+    # contiguous fast path, or the end of the sorted scan.  Any other acceptance path is unreviewed.
+    falses = [(bb, j) for (bb, j, k, payload, dplace) in f.defs().get(0, []) if k == 'rv' and payload[0] == 'use' and op_int(payload[1]) == 0]
+    nf = 0
+    bad_false = None
+    for bb, j in falses:
+        nf += 1
+        if guards_call(f, bb, 're:overlap::is_contiguous$', True):
+            continue
+        if any(g.cond()[0] == 'call' and re.search(r'Iterator>?::any$', g.cond()[1].callee or '') and g.truth() is True for g in f.guards(bb)):
+            continue
+        # after the scan: dominated by the loop header and not inside the loop body, with no other positive guard
+        if f.dominates(h, bb) and bb not in body:
+            continue
+        bad_false = f.loc(f.bbs[bb]['s'][j][3] if isinstance(j, int) and len(f.bbs[bb]['s'][j]) > 3 else None)
+    ctx.inst(R, 'false-only-if-empty-contiguous-or-scanned', bad_false is None and nf >= 3,
+             '`false` (cannot overlap) is returned only for an empty shape, under is_contiguous(), or after the sorted-stride scan (%d exits)' % nf if bad_false is None and nf >= 3 else
+             'may_have_internal_overlap answers `false` on a path that is neither the empty-shape test, the contiguous fast path nor the completed sorted-stride scan: an unreviewed shortcut can admit aliasing layouts', bad_false or f.loc())
     # size-1 dims filtered, empty shapes return false early
     cl = [g for g in fns if g.path != MHO]
     filt = any(any((op == 'Ne' and (op_int(a) == 1 or op_int(b) == 1)) or (op == 'Eq' and (op_int(a) == 1 or op_int(b) == 1)) for (op, a, b, gd) in _all_cmps(g)) for g in cl)
